@@ -181,6 +181,13 @@ def check_C03(res, tier, seed, replay):
         # schedules: a body that is only right for single-index sub-ranges (state carried from one index of a sub-range to
         # the next) shows up when one task gets a whole range, and only if the phase's lightest odd cycle needs it
         mid = [(g, 1) for g in gens.random_graphs(rng, 700 if tier == 'quick' else 8000, 8, 12, 20, [list(range(1, 50)), list(range(1, 1000))])]
+        # ... and dense ones (supports with >= n entries: the all-vertices branch, whose range is 0..n-1)
+        for _ in range(900 if tier == 'quick' else 9000):
+            n = rng.randint(6, 9)
+            full = n * (n - 1) // 2
+            m = rng.randint(full - 3, full) if rng.random() < 0.5 else rng.randint(min(2 * n + 2, full), full)     # half of them (nearly) complete
+            ws = rng.choice([list(range(1, 50)), list(range(1, 1000)), list(range(1, 12))])
+            mid.append((gens.rand_graph(rng, n, m, lambda: rng.choice(ws)), 1))
         ml = [vlib.graph_line(500000 + i, g['n'], g['edges'], den) for i, (g, den) in enumerate(mid)]
         trm = vlib.parallel_record(exe, ml, wd, 'tbb_mid', extra=['--random', '2', '--max-regions', '0', '--seed', str(seed), '--algos', 'signed_tbb'], timeout=3000)
         stm = strip_stats(trm)
@@ -188,7 +195,7 @@ def check_C03(res, tier, seed, replay):
         res.add_validation(vm, vlib.count_events(trm).get('Call', 0))
         judge(res, vm, 'Trace_Mcb')
         res.cov['mid_size_stage'] = {'graphs': len(mid), 'executions': sum(s['executions'] for s in stm), 'distinct_behaviours_validated': vlib.count_events(trm).get('Call', 0),
-                                     'what': 'signed_tbb on random graphs n 8..12, m <= 20, weights 1..49 / 1..999 under unsplit, the degenerate families and 2 random schedules'}
+                                     'what': 'signed_tbb on random graphs n 8..12, m <= 20 and on dense graphs n 6..9 (m >= 2n+2), weights 1..49 / 1..999 / 1..11, under unsplit, the degenerate families and 2 random schedules'}
         # real oneTBB: true interleavings on graphs large enough for ranges to split
         exe2 = p_mcb.mcb_harness()
         big = []
@@ -226,6 +233,29 @@ def check_C03(res, tier, seed, replay):
                         seg.setdefault(cur, []).append(json.dumps(o)); ncalls += 1
                     elif cur is not None:
                         seg[cur].append(ln.strip())
+        # complete graphs K10..K13 with wide weights on vtbb (coarse schedules: unsplit, degenerate, random): late phases have supports
+        # with >= n entries (the all-vertices branch is rare on smaller graphs); related to the sequential result like the large graphs
+        ndense = 40 if tier == 'quick' else 400
+        denselines = []
+        for f in range(nbig, nbig + ndense):
+            g = gens.reweight(rng, gens.complete(rng.randint(10, 13)), list(range(1, 1000)))
+            denselines.append(vlib.graph_line(f * 10, g['n'], g['edges'], 1, extra=['fam=%d' % f, 'gid=0']))
+        trd_seq = vlib.parallel_record(exe2, denselines, wd, 'dense_seq', extra=['--algos', 'signed', '--types', 'double', '--no-emit', '--call-timeout', '600'])
+        trd = vlib.parallel_record(exe, denselines, wd, 'dense_vtbb', extra=['--random', '3', '--max-regions', '0', '--seed', str(seed), '--algos', 'signed_tbb,fvs_tbb'], timeout=3000)
+        strip_stats(trd)
+        for tr in (trd_seq, trd):
+            cur = None
+            with open(tr) as fh:
+                for ln in fh:
+                    if '"e":"Call"' in ln:
+                        o = json.loads(ln); o['edges'] = []
+                        cur = o['meta']['fam']
+                        seg.setdefault(cur, []).append(json.dumps(o)); ncalls += 1
+                    elif '"e":"Emit"' in ln:
+                        continue
+                    elif cur is not None:
+                        seg[cur].append(ln.strip())
+        nbig += ndense
         for f in range(nbig):
             path = os.path.join(wd, 'big%d.ndjson' % f)
             with open(path, 'w') as o:
